@@ -291,6 +291,10 @@ def token_string_cases(chk, cfg_names, out_path, entries, limits, trace=False, e
     return n_strings, n_cases
 
 
+RECHECK_CAP = 6000
+EXAMINED = set()    # inputs of the failing observation records that classify_bad_obs re-ran with tracing
+
+
 def classify_bad_obs(chk, bad, prefix):
     """Bad observation records: re-run their example inputs with primitive-operation tracing so that the
     rejection is located (and attributed to a known call site when it matches)."""
@@ -300,7 +304,12 @@ def classify_bad_obs(chk, bad, prefix):
     mine.sort(key=lambda uf: len(uf[0].get("text") or ""))
     cases = os.path.join(chk.work, "recheck.ndjson")
     rows = []
-    for k, (u, f) in enumerate(mine[:300]):
+    global EXAMINED
+    EXAMINED = set()
+    if len(mine) > RECHECK_CAP:
+        chk.note("%d failing observation records; the %d with the shortest inputs are re-run with tracing" % (len(mine), RECHECK_CAP))
+    for k, (u, f) in enumerate(mine[:RECHECK_CAP]):
+        EXAMINED.add(u.get("text"))
         if u.get("e") in ("Crash", "Hang") or u.get("e") == "Call":
             continue
         rows.append({"id": k, "entry": u["entry"], "text": u["text"], "tok": u.get("tokLimit", -1),
